@@ -47,34 +47,58 @@ def run_verus(pid, unit, tier, seed, keep=False):
             mods = sorted(set([_module_of(r) for r in files] + ["verif_specs::m" + x for x in specs] + unit.get("modules", [])))
             for m in mods:
                 extra += ["--verify-only-module", m]
-        # heavy functions are verified in their own Verus invocation (same annotated crate, fixed
-        # query context, higher resource limit), concurrently with the main run
+        # modules listed under "per_function" are not verified as a module: each of their functions
+        # (and twins) gets its own Verus invocation (fixed, small query context; a heavy function cannot
+        # starve or perturb the others), run concurrently with the main run
         from concurrent.futures import ThreadPoolExecutor
-        iso = [i for i in unit.get("isolate", []) if tier == "quick" or True]
+        pf_mods = unit.get("per_function", [])
+        iso = []
+        for m in pf_mods:
+            relf = "crates/core/src/" + m.replace("::", "/") + ".rs"
+            names = set()
+            for (a, b, name) in meta["files"].get(relf, {}).get("fnranges", []):
+                if name.startswith("tests::"):
+                    continue
+                last = name.split("::")[-1]
+                names.add(("*" + last) if last.startswith("twin_") else ("*::" + last))
+            # only functions that are actually verified (have a contract or a twin)
+            keep = set()
+            for fn in meta["fn_props"]:
+                if fn.startswith(os.path.basename(relf) + "::"):
+                    last = fn.split("::")[-1]
+                    keep.add("*::" + last)
+                    keep.add("*twin_" + "_".join(fn.split("::")[1:]))
+            for pat in sorted(names & keep):
+                iso.append((m, pat))
+        if tier == "quick" and pf_mods:
+            extra = [x for i, x in enumerate(extra) if not (x in pf_mods and i > 0 and extra[i - 1] == "--verify-only-module") and not (x == "--verify-only-module" and i + 1 < len(extra) and extra[i + 1] in pf_mods)]
         def _iso(spec):
             mod, pat = spec
-            return spec, engine.run_verus(s, extra=["--verify-only-module", mod, "--verify-function", pat], rlimit=unit.get("iso_rlimit", 3000), threads=2, timeout=1500)
-        with ThreadPoolExecutor(max_workers=1 + len(iso)) as ex:
-            fut_main = ex.submit(engine.run_verus, s, extra, unit.get("rlimit", 800), 12)
+            return spec, engine.run_verus(s, extra=["--verify-only-module", mod, "--verify-function", pat], rlimit=unit.get("iso_rlimit", 3000), threads=1, timeout=1500)
+        with ThreadPoolExecutor(max_workers=8) as ex:
+            fut_main = ex.submit(engine.run_verus, s, extra, unit.get("rlimit", 800), 8)
             futs = [ex.submit(_iso, i) for i in iso]
             run = fut_main.result()
             iso_runs = [f.result() for f in futs]
         summ = engine.summarize(run)
         fails = engine.classify(meta, run)
-        iso_ok = set()
+        if tier != "quick" and pf_mods:
+            # thorough tier verifies the whole crate in the main run; verdicts on per-function modules come from the isolated runs
+            fails = [f for f in fails if not any(("/" + m.replace("::", "/") + ".rs") in ("/" + (f["file"] or "")) for m in pf_mods)]
+        n_iso_ok = 0
         for (mod, pat), r in iso_runs:
             sm = engine.summarize(r)
             fl = engine.classify(meta, r)
-            name = pat.replace("*", "")
-            if r["result"] is not None and not fl and (sm.get("verified") or 0) >= 1:
-                iso_ok.add(name)
-            else:
-                fails += [f for f in fl if f["kind"] != "rlimit"]
-                if any(f["kind"] == "rlimit" for f in fl) or r["result"] is None:
-                    fails.append({"obligation": "%s::rlimit(isolated)" % pat, "fn": None, "message": "resource limit in the isolated run", "kind": "rlimit", "file": "verif_specs", "line": 0, "text": "", "rendered": ""})
-            out.setdefault("isolated_runs", []).append({"function": pat, "verified": sm.get("verified"), "wall_s": round(r["wall"], 1)})
-        # the main run's verdict on an isolated function is superseded by the isolated run
-        fails = [f for f in fails if not (f["fn"] and any(f["fn"].endswith(n) for n in iso_ok) )]
+            if r["result"] is None and not fl:
+                fl = [{"obligation": "%s::%s(isolated run did not complete)" % (mod, pat), "fn": None, "message": r["stderr"][-300:], "kind": "rlimit", "file": "verif_specs", "line": 0, "text": "", "rendered": ""}]
+            if (sm.get("verified") or 0) == 0 and not fl and "twin" not in pat:
+                # pattern matched nothing that is verified (e.g. external_body only): ignore
+                pass
+            n_iso_ok += (sm.get("verified") or 0)
+            fails += fl
+            out.setdefault("isolated_runs", []).append({"function": pat, "verified": sm.get("verified"), "errors": sm.get("errors"), "wall_s": round(r["wall"], 1)})
+        if iso_runs:
+            summ["verified"] = (summ.get("verified") or 0) + n_iso_ok
         out["checker_cmd"] = run["cmd"]
         out["rlimit"] = unit.get("rlimit", 800)
         tm = summ.get("times_ms") or {}
